@@ -262,3 +262,64 @@ func VerifH_C16_two_cycles() {
 		}
 	}
 }
+
+// refSplitV3 splits a revision-3 text payload "<len>:<packet><len>:<packet>..." (lengths
+// in characters; the harness uses ASCII data, so characters are bytes).
+func refSplitV3(s string) (out []string, ok bool) {
+	for len(s) > 0 {
+		i := strings.IndexByte(s, ':')
+		if i <= 0 {
+			return out, false
+		}
+		n, err := strconv.Atoi(s[:i])
+		if err != nil || n < 0 || i+1+n > len(s) {
+			return out, false
+		}
+		out = append(out, s[i+1:i+1+n])
+		s = s[i+1+n:]
+	}
+	return out, true
+}
+
+// VerifH_C16_poll_cycle_v3: the same cycle on a revision-3 session: the body is the
+// length-prefixed text payload of exactly the packets handed over, in order.
+func VerifH_C16_poll_cycle_v3() {
+	p, _ := newPolling("3")
+	ctx, w := newCtx("GET", "3")
+	p.OnRequest(ctx)
+	n := verif.Choose(3) + 1
+	var batch []*packet.Packet
+	var want []string
+	for i := 0; i < n; i++ {
+		switch verif.Choose(3) {
+		case 0:
+			d := verif.BytesN(verif.Int(0, 2))
+			for _, b := range d {
+				verif.Assume(b >= 0x20 && b < 0x7f)
+			}
+			batch = append(batch, &packet.Packet{Type: packet.MESSAGE, Data: types.NewStringBuffer(append([]byte(nil), d...))})
+			want = append(want, "4"+string(d))
+		case 1:
+			batch = append(batch, &packet.Packet{Type: packet.NOOP})
+			want = append(want, "6")
+		case 2:
+			batch = append(batch, &packet.Packet{Type: packet.PONG, Data: types.NewStringBufferString("probe")})
+			want = append(want, "3probe")
+		}
+	}
+	p.Send(batch)
+	verif.Settle()
+	verif.Assert(w.writeCalls == 1 && len(w.status) == 1 && w.status[0] == 200, "the pending poll is answered once")
+	if w.writeCalls != 1 {
+		return
+	}
+	got, ok := refSplitV3(string(w.bodies[0]))
+	verif.Assert(ok, "the body is a well-formed length-prefixed payload")
+	verif.Assert(len(got) == len(want), "as many packets as handed to the transport")
+	if ok && len(got) == len(want) {
+		for i := range want {
+			verif.Assert(got[i] == want[i], "each packet intact, in order")
+		}
+	}
+	verif.Assert(w.hdr.Get("Content-Type") == "text/plain; charset=UTF-8", "text payload")
+}
